@@ -1187,7 +1187,12 @@ class Exec(ExprMixin, CallMixin):
                 normals.append(oe.normal)
             else:
                 normals.append(exit_st)
-        out.normal = self.merge(normals)
+        normals = [x for x in normals if x is not None]
+        if 1 < len(normals) <= 3 and getattr(self.c, 'heap_consts', False):
+            # few ways out of the loop (exhaustion, breaks): keep them apart, each continuation is simpler than the merged one
+            out.normals = normals
+        else:
+            out.normal = self.merge(normals)
         return out
 
     def hidden_names(self, ordn):
